@@ -104,12 +104,13 @@ pub fn id_char(t: u32) -> char {
         _ => panic!("driver: unknown id token {}", t),
     }
 }
-/// text alphabet: 0 ' ', 1..26 'a'..'z', 101..126 'A'..'Z'; regex tokens as above
+/// text alphabet: 0 ' ', 1..26 'a'..'z', 101..126 'A'..'Z', 200 + ASCII for other printable characters; regex tokens as above
 pub fn text_char(t: u32) -> char {
     match t {
         0 => ' ',
         1..=26 => (b'a' + (t - 1) as u8) as char,
         101..=126 => (b'A' + (t - 101) as u8) as char,
+        233..=326 => (t - 200) as u8 as char, // 200 + ASCII for the other printable characters
         DOT => '.',
         CARET => '^',
         PIPE => '|',
@@ -150,6 +151,21 @@ pub fn id_str(tokens: &[u32]) -> String {
 pub fn text_str(tokens: &[u32]) -> String {
     tokens.iter().map(|t| text_char(*t)).collect()
 }
+/// code sequence of a printable ASCII text (None if the text has other characters)
+pub fn text_codes(s: &str) -> Option<Vec<u32>> {
+    s.chars()
+        .map(|c| match c {
+            ' ' => Some(0),
+            'a'..='z' => Some(c as u32 - 'a' as u32 + 1),
+            'A'..='Z' => Some(c as u32 - 'A' as u32 + 101),
+            '!'..='~' => Some(200 + c as u32),
+            _ => None,
+        })
+        .collect()
+}
+pub fn xml_escape(s: &str) -> String {
+    s.replace('&', "&amp;").replace('<', "&lt;").replace('>', "&gt;")
+}
 pub fn id4(v: &[u32]) -> DltChar4 {
     assert_eq!(v.len(), 4, "driver: message id must have 4 elements");
     let b: Vec<u8> = v.iter().map(|t| id_char(*t) as u8).collect();
@@ -172,6 +188,18 @@ pub fn mk_dlt_msg(index: u32, m: &AMsg) -> DltMessage {
         payload_text: Some(text_str(&m.text)),
         lifecycle: m.lc,
     }
+}
+
+/// a message with a real payload (verbose arguments / non-verbose data); its text is whatever the code base renders.
+/// text: None = payload_text not set (rendered on demand), Some = text already present (as after a plugin / a first rendering)
+pub fn mk_real_msg(index: u32, m: &AMsg, payload: &[u8], noar: u8, text: Option<String>) -> DltMessage {
+    let mut msg = mk_dlt_msg(index, m);
+    msg.payload = payload.to_vec();
+    if let Some(e) = msg.extended_header.as_mut() {
+        e.noar = noar;
+    }
+    msg.payload_text = text;
+    msg
 }
 
 pub fn kind_of(k: u32) -> FilterKind {
@@ -321,7 +349,7 @@ pub fn render_dlf_file(prefix: &str, fs: &[&AFilter], style: DlfStyle) -> String
             k => panic!("driver: type criterion {} {} is not expressible in DLF", k, f.typ.v),
         }
         if f.pay.k != "none" {
-            el("payloadtext", &text_str(&pay_syn(&f.pay)));
+            el("payloadtext", &xml_escape(&text_str(&pay_syn(&f.pay))));
             el("enablepayloadtext", "1");
             if explicit || f.pay.k == "re" {
                 el("enableregexp_Payload", if f.pay.k == "re" { "1" } else { "0" });
